@@ -161,16 +161,30 @@ Section Keyed.
 
   Lemma in_updk l id f b : In b (updk l id f) <-> exists a, In a l /\ b = if (key a =? id)%N then f a else a.
   Proof. unfold updk. rewrite in_map_iff. split; intros (a & H1 & H2); exists a; auto. Qed.
-  Lemma updk_keys l id f : (forall a, key (f a) = key a) -> map key (updk l id f) = map key l.
-  Proof. intros Hf. unfold updk. rewrite map_map. apply map_ext. intros a. destruct (key a =? id)%N; auto. Qed.
+  Lemma updk_keys l id f : (forall a, key a = id -> key (f a) = key a) -> map key (updk l id f) = map key l.
+  Proof. intros Hf. unfold updk. rewrite map_map. apply map_ext. intros a. destruct (N.eqb_spec (key a) id); auto. Qed.
   Lemma updk_fresh l id f : ~ In id (map key l) -> updk l id f = l.
   Proof. intros H. unfold updk. rewrite <- (map_id l) at 2. apply map_ext_in. intros a Ha.
     destruct (N.eqb_spec (key a) id) as [E|E]; [|reflexivity]. exfalso. apply H. rewrite <- E. apply in_map. assumption. Qed.
-  Lemma findk_updk l id f id' : (forall a, key (f a) = key a) ->
+  Lemma findk_updk l id f id' : (forall a, key a = id -> key (f a) = key a) ->
     findk (updk l id f) id' = option_map (fun a => if (key a =? id)%N then f a else a) (findk l id').
   Proof. intros Hf. unfold findk, updk. induction l as [|x t IH]; [reflexivity|]. cbn [map find].
-    assert (E : key (if (key x =? id)%N then f x else x) = key x) by (destruct (key x =? id)%N; auto).
+    assert (E : key (if (key x =? id)%N then f x else x) = key x) by (destruct (N.eqb_spec (key x) id); auto).
     rewrite E. destruct (key x =? id')%N; [reflexivity|apply IH]. Qed.
+  (* replacing the element with the key of a by a constant *)
+  Lemma in_updk_const l a a' b : NoDup (map key l) -> In a l ->
+    (In b (updk l (key a) (fun _ => a')) <-> b = a' \/ (In b l /\ key b <> key a)).
+  Proof. intros Hnd Ha. rewrite in_updk. split.
+    - intros (x & Hx & ->). destruct (N.eqb_spec (key x) (key a)); auto.
+    - intros [->|[Hb Hne]]; [exists a; rewrite N.eqb_refl; auto|]. exists b. split; [assumption|].
+      destruct (N.eqb_spec (key b) (key a)); [contradiction|reflexivity]. Qed.
+  Lemma length_flat_map_updk {B} (h : A -> list B) l a a' : NoDup (map key l) -> In a l ->
+    (length (flat_map h (updk l (key a) (fun _ => a'))) + length (h a) = length (flat_map h l) + length (h a'))%nat.
+  Proof. induction l as [|x t IH]; [contradiction|]. cbn [map]. intros Hnd Hin. inversion Hnd as [|? ? Hni Hnd']; subst.
+    unfold updk. cbn [map flat_map]. rewrite !app_length. fold (updk t (key a) (fun _ => a')). destruct Hin as [->|Hin].
+    - rewrite N.eqb_refl. rewrite (updk_fresh t (key a) _ Hni). lia.
+    - destruct (N.eqb_spec (key x) (key a)) as [E|E]; [exfalso; apply Hni; rewrite E; apply in_map; assumption|].
+      specialize (IH Hnd' Hin). lia. Qed.
   Lemma findk_app l1 l2 id : findk (l1 ++ l2) id = match findk l1 id with Some a => Some a | None => findk l2 id end.
   Proof. unfold findk. induction l1 as [|x t IH]; [reflexivity|]. cbn [app find]. destruct (key x =? id)%N; auto. Qed.
 
